@@ -171,38 +171,46 @@ def mp4ToGo (v : Int64) (ts : Nat) : Int64 :=
   let t := Int64.ofNat ts
   (v / t) * 1000000000 + (v % t) * 1000000000 / t
 
+/-- one iteration of "foreach traf": `.error r` = the function returns `r`, `.ok (pos', max', allocs')` = next
+iteration. -/
+def trafStep (c : Cfg) (lib : Lib) (f : Bytes) (tracks : List Track) (pos : Nat) (mx : Int64) (al : List Alloc) :
+    Except (Res Int64) (Nat × Int64 × List Alloc) :=
+  if f.length < pos + 8 then .error (.err .eof, al) else
+  if tagAt f (pos + 4) == tMdat then .error (.ok mx, al) else
+  if tagAt f (pos + 4) != tTraf then .error (.err .unexpected, al) else
+  match readBox c f (pos + 8) tTfhd .tfhd al with
+  | .error r => .error r
+  | .ok (p1, pos1, al1) =>
+    match lib.tfhd p1 with
+    | none => .error (.err .badtfhd, al1)
+    | some tid =>
+      match findTrack tracks tid with
+      | none => .error (.err .track, al1)
+      | some tr =>
+        match readBox c f pos1 tTfdt .tfdt al1 with
+        | .error r => .error r
+        | .ok (p2, pos2, al2) =>
+          match lib.tfdt p2 with
+          | none => .error (.err .badtfdt, al2)
+          | some base =>
+            match readBox c f pos2 tTrun .trun al2 with
+            | .error r => .error r
+            | .ok (p3, pos3, al3) =>
+              match lib.trun p3 with
+              | none => .error (.err .badtrun, al3)
+              | some sum =>
+                if tr.ts = 0 then .error (.panicDiv, al3) else
+                let e := mp4ToGo (Int64.ofNat base + Int64.ofNat sum) tr.ts
+                .ok (pos3, (if e > mx then e else mx), al3)
+
 /-- "foreach traf". -/
 def trafLoop (c : Cfg) (lib : Lib) (f : Bytes) (tracks : List Track) :
     Nat → Nat → Int64 → List Alloc → Res Int64
   | 0, _, _, al => (.hang, al)
   | fuel + 1, pos, mx, al =>
-    if f.length < pos + 8 then (.err .eof, al) else
-    if tagAt f (pos + 4) == tMdat then (.ok mx, al) else
-    if tagAt f (pos + 4) != tTraf then (.err .unexpected, al) else
-    match readBox c f (pos + 8) tTfhd .tfhd al with
+    match trafStep c lib f tracks pos mx al with
     | .error r => r
-    | .ok (p1, pos1, al1) =>
-      match lib.tfhd p1 with
-      | none => (.err .badtfhd, al1)
-      | some tid =>
-        match findTrack tracks tid with
-        | none => (.err .track, al1)
-        | some tr =>
-          match readBox c f pos1 tTfdt .tfdt al1 with
-          | .error r => r
-          | .ok (p2, pos2, al2) =>
-            match lib.tfdt p2 with
-            | none => (.err .badtfdt, al2)
-            | some base =>
-              match readBox c f pos2 tTrun .trun al2 with
-              | .error r => r
-              | .ok (p3, pos3, al3) =>
-                match lib.trun p3 with
-                | none => (.err .badtrun, al3)
-                | some sum =>
-                  if tr.ts = 0 then (.panicDiv, al3) else
-                  let e := mp4ToGo (Int64.ofNat base + Int64.ofNat sum) tr.ts
-                  trafLoop c lib f tracks fuel pos3 (if e > mx then e else mx) al3
+    | .ok (pos', mx', al') => trafLoop c lib f tracks fuel pos' mx' al'
 
 def durFromParts (c : Cfg) (lib : Lib) (f : Bytes) (tracks : List Track) : Res Int64 :=
   if f.length < 8 then (.err .eof, []) else
